@@ -443,7 +443,14 @@ pub fn run_recv(args: &[String]) -> i32 {
                 w.put(&json!({"id": sc["id"], "tool_error": "could not connect"}));
                 continue;
             };
-            let frames: Vec<Vec<u8>> = sc["frames"].as_array().map(|a| a.iter().map(|f| bytes_of(&f["bytes"])).collect()).unwrap_or_default();
+            let mut frames: Vec<Vec<u8>> = sc["frames"].as_array().map(|a| a.iter().map(|f| bytes_of(&f["bytes"])).collect()).unwrap_or_default();
+            // "big": n -- the scenario is a SEND whose payload is a binary of n bytes, a tick, and a small SEND (pass-through form)
+            let big_n = sc["big"].as_u64().unwrap_or(0) as usize;
+            let big_payload = OwnedTerm::Binary((0..big_n).map(|i| (i % 251) as u8).collect());
+            if big_n > 0 {
+                let ctl = OwnedTerm::Tuple(vec![OwnedTerm::Integer(2), OwnedTerm::Atom(Atom::new("")), OwnedTerm::Pid(ExternalPid::new(Atom::new("n1@127.0.0.1"), 9, 0, 77))]);
+                frames = vec![pass_through(&ctl, Some(&big_payload)), Vec::new(), pass_through(&ctl, Some(&OwnedTerm::Integer(42)))];
+            }
             let cut = sc["cut"].as_u64().unwrap_or(0) as usize;
             let via_read_half = sc["via_read_half"].as_bool().unwrap_or(false);
             // the whole byte stream, written in pieces of `cut` bytes (0 = frame by frame)
@@ -554,6 +561,15 @@ pub fn run_recv(args: &[String]) -> i32 {
             writer.abort();
             let panicked = joined.is_err();
             let mut res = results.lock().unwrap().clone();
+            if big_n > 0 {
+                // report the outcome, not the 200 kB
+                let msgs: Vec<&Value> = res.iter().filter(|r| r["k"] == "msg").collect();
+                let big_ok = msgs.first().map(|m| m["payload"] == denote(&big_payload)).unwrap_or(false);
+                let small_ok = msgs.get(1).map(|m| m["payload"] == denote(&OwnedTerm::Integer(42))).unwrap_or(false);
+                let kinds: Vec<Value> = res.iter().map(|r| if r["k"] == "msg" { json!("msg") } else { json!([r["k"], r["detail"]]) }).collect();
+                w.put(&json!({"id": sc["id"], "big": big_n, "big_delivered_intact": big_ok, "following_message_delivered_intact": small_ok, "messages_returned": msgs.len(), "results": kinds, "panicked": panicked}));
+                continue;
+            }
             let mut deep_delivered = Value::Null;
             if soak > 0 {
                 // the last message-or-error result belongs to the deep message
